@@ -12,7 +12,12 @@ Local Open Scope N_scope.
 Definition E_ILLTYPED : N := 99.   (* value does not inhabit the type: not a Rust behaviour, excluded by wf_val *)
 
 (** * Types and values *)
-Inductive pikind := KU8 | KI8 | KU16 | KI16 | KU32 | KI32 | KU64 | KI64.
+(* the Rust integer type of a component.  An INTEGER whose constraint carries an extension marker
+   ("INTEGER (-5..5, ...)") is mapped to u64 (root bounds both >= 0) or i64 (rust.rs
+   asn_extensible_integer_to_rust) while its numbers::Constraint keeps the ROOT bounds as MIN / MAX and has
+   EXTENSIBLE = true (walker.rs): [KExt signed MIN MAX]. *)
+Inductive pikind := KU8 | KI8 | KU16 | KI16 | KU32 | KI32 | KU64 | KI64
+                  | KExt (signed : bool) (mn mx : option Z).
 
 Inductive pty :=
 | TBool | TInt (k : pikind) | TStr | TBytes | TBits | TNull
@@ -38,23 +43,27 @@ Definition kind_min (k : pikind) : option Z :=
   | KU8 | KU16 | KU32 => Some 0%Z | KU64 => None
   | KI8 => Some (-128)%Z | KI16 => Some (-32768)%Z | KI32 => Some (-2147483648)%Z
   | KI64 => Some i64_min
+  | KExt _ mn _ => mn
   end.
 Definition kind_max (k : pikind) : option Z :=
   match k with
   | KU8 => Some 255%Z | KU16 => Some 65535%Z | KU32 => Some 4294967295%Z | KU64 => None
   | KI8 => Some 127%Z | KI16 => Some 32767%Z | KI32 => Some 2147483647%Z
   | KI64 => Some i64_max
+  | KExt _ _ mx => mx
   end.
 Definition unwrap_or {A} (o : option A) (d : A) : A := match o with Some a => a | None => d end.
 
 Inductive pnum := PUInt32 | PUInt64 | PSInt32 | PSInt64.
-(* the branch structure shared by write_number and read_number *)
-Definition num_sel (mn mx : option Z) : pnum :=
+(* the branch structure shared by write_number and read_number: signedness from MIN; a 32-bit format only for a
+   constraint without extension marker (`!C::EXTENSIBLE && ..`, /repo 4788e65) *)
+Definition num_sel (ext : bool) (mn mx : option Z) : pnum :=
   if (0 <=? unwrap_or mn 0)%Z then
-    (if (unwrap_or mx i64_max <=? 4294967295)%Z then PUInt32 else PUInt64)
-  else if ((-2147483648 <=? unwrap_or mn i64_min) && (unwrap_or mx i64_max <=? 2147483647))%Z
+    (if negb ext && (unwrap_or mx i64_max <=? 4294967295)%Z then PUInt32 else PUInt64)
+  else if negb ext && ((-2147483648 <=? unwrap_or mn i64_min) && (unwrap_or mx i64_max <=? 2147483647))%Z
        then PSInt32 else PSInt64.
-Definition kind_sel (k : pikind) : pnum := num_sel (kind_min k) (kind_max k).
+Definition kind_ext (k : pikind) : bool := match k with KExt _ _ _ => true | _ => false end.   (* C::EXTENSIBLE *)
+Definition kind_sel (k : pikind) : pnum := num_sel (kind_ext k) (kind_min k) (kind_max k).
 
 (* Number::to_i64 (`self as i64`) and Number::from_i64 (`value as T`) *)
 Definition to_i64 (k : pikind) (z : Z) : Z := i64_wrap z.
@@ -65,6 +74,8 @@ Definition from_i64 (k : pikind) (z : Z) : Z :=
   | KU64 => z mod 18446744073709551616
   | KI8 => wrap_signed 8 z | KI16 => wrap_signed 16 z | KI32 => wrap_signed 32 z
   | KI64 => z
+  | KExt false _ _ => z mod 18446744073709551616
+  | KExt true _ _ => z
   end%Z.
 Definition kind_range (k : pikind) : Z * Z :=
   match k with
@@ -72,6 +83,8 @@ Definition kind_range (k : pikind) : Z * Z :=
   | KU64 => (0, 18446744073709551615)
   | KI8 => (-128, 127) | KI16 => (-32768, 32767) | KI32 => (-2147483648, 2147483647)
   | KI64 => (i64_min, i64_max)
+  | KExt false _ _ => (0, 18446744073709551615)
+  | KExt true _ _ => (i64_min, i64_max)
   end%Z.
 Definition in_kind (k : pikind) (z : Z) : bool :=
   let '(lo, hi) := kind_range k in ((lo <=? z) && (z <=? hi))%Z.
